@@ -74,8 +74,7 @@ def r2_pagination(ctx):
     cond_name = cond.id if isinstance(cond, ast.Name) else None
     req = [c for c in calls_in(lp) if (dotted(c.func) or '').startswith('self._list')]
     ctx.floor('C13.R2', 'S3 page request in the loop', len(req))
-    tok_kw = next((k for k in req[0].keywords if k.arg and 'token' in k.arg), None)
-    tok_name = tok_kw.value.id if tok_kw is not None and isinstance(tok_kw.value, ast.Name) else None
+    tok_name = _loop_carried_kw(lf, lp, req[0])
     # the token is re-assigned inside the loop from the current response's elements
     assigns = [a for a in walk_local(lp) if isinstance(a, ast.Assign) and any(isinstance(t, ast.Name) and t.id == tok_name for t in a.targets)]
     from_resp = bool(assigns) and all(isinstance(a.value, ast.Attribute) and a.value.attr == 'text' for a in assigns)
@@ -104,8 +103,7 @@ def r2_pagination(ctx):
     lp = loops[0]
     req = [c for c in calls_in(lp) if (dotted(c.func) or '').startswith('self._list')]
     ctx.floor('C13.R2', 'B2 page request in the loop', len(req))
-    sk = next((k for k in req[0].keywords if k.arg and 'start' in k.arg), None)
-    sname = sk.value.id if sk is not None and isinstance(sk.value, ast.Name) else None
+    sname = _loop_carried_kw(bl, lp, req[0])
     assigns = [a for a in walk_local(lp) if isinstance(a, ast.Assign) and any(isinstance(t, ast.Name) and t.id == sname for t in a.targets)]
     okc = bool(assigns) and all(isinstance(a.value, ast.Subscript) and isinstance(a.value.slice, ast.Constant) and a.value.slice.value == 'nextFileName' for a in assigns)
     # decoded comes from this iteration's response
@@ -120,11 +118,27 @@ def r2_pagination(ctx):
     ctx.check(bool(ys) and brk and all(y.lineno < brk[0].lineno for y in ys), 'C13.R2', f'{func_label(bl)}|b2-yields-before-continuing', loc(bl, lp), "B2 listing: the page's names are yielded before the continuation is followed", "B2 listing: the last page's names are not yielded")
 
 
+def _loop_carried_kw(fn, loop, call):
+    """The keyword argument of the page request whose value is a local that is
+    initialised to None before the loop and re-assigned inside it."""
+    for k in call.keywords:
+        if isinstance(k.value, ast.Name):
+            nm = k.value.id
+            init_none = any(isinstance(a, ast.Assign) and any(isinstance(t, ast.Name) and t.id == nm for t in a.targets) and isinstance(a.value, ast.Constant) and a.value.value is None and not is_within(a, loop) for a in walk_local(fn.node))
+            reassigned = any(isinstance(a, ast.Assign) and any(isinstance(t, ast.Name) and t.id == nm for t in a.targets) for a in walk_local(loop))
+            if init_none and reassigned:
+                return nm
+    return None
+
+
 def r3_prefix(ctx):
     corpus = ctx.corpus
-    for cname, short, helper, token in (('S3Compatible', 's3c', '_list_objects', 'continuation_token'), ('B2', 'b2', '_list_file_names', 'start_file_name')):
+    for cname, short, helper, token in (('S3Compatible', 's3c', '_list_objects', None), ('B2', 'b2', '_list_file_names', None)):
         ci = corpus.cls(short, cname)
         lf, hp = ci.methods.get('list_files'), ci.methods.get(helper)
+        if hp is not None:
+            kwo = [a.arg for a in hp.node.args.kwonlyargs if a.arg != 'prefix']
+            token = kwo[0] if kwo else None
         if lf is None or hp is None:
             raise AnalysisError(f'C13.R3: {cname}.list_files / {helper} missing')
         ctx.analysed(lf, hp)
